@@ -151,6 +151,7 @@ func concatParts(v ssa.Value) []ssa.Value {
 }
 
 func runC12(c *Ctx, r *Report) {
+	defer c12r6(c, r)
 	l := c.L
 	// ---------------- R1 ----------------
 	r.rule("C12-R1", "H (constants evaluated in a model of single-quote lexing)", "P1",
